@@ -204,6 +204,23 @@ def run(ctx: Ctx):
             lam = g[i] * bt[i] * 299792458.0 * 2.903e-13 * 1e-3
             if not close(ln[i], -lam * np.log(u[i]), 1e-12, 1e-300):
                 ctx.violation("EAS.altDec", "len-formula", "decay length != -gamma beta c tau0 ln u", case)
+    # the emergence angle given as an astropy quantity (degrees, arc minutes, radians): the same angle gives the same decay point
+    from astropy import units as aunits
+    kq = min(m, 64)
+    ref_a, ref_l = eas.altDec(beta[:kq].copy(), bt[:kq].copy(), g[:kq].copy(), u[:kq].copy())
+    for unit_ in (aunits.rad, aunits.deg, aunits.arcmin):
+        ctx.case(("angle-unit", str(unit_)), None); ctx.count("angle_as_quantity")
+        try:
+            qa, ql = eas.altDec((beta[:kq] * aunits.rad).to(unit_), bt[:kq].copy(), g[:kq].copy(), u[:kq].copy())
+            qa = np.asarray(getattr(qa, "value", qa), dtype=np.float64); ql = np.asarray(getattr(ql, "value", ql), dtype=np.float64)
+            if not (np.allclose(ql, ref_l, rtol=1e-12, atol=0, equal_nan=True) and np.all(np.abs(qa - ref_a) <= 1e-9 * (Rk + np.abs(ref_l)) + 1e-300)):
+                k_ = int(np.nanargmax(np.abs(qa - ref_a)))
+                ctx.violation("EAS.altDec", "angle-unit-ignored", f"the emergence angle given in {unit_} does not give the decay altitude of the same angle in radians",
+                              {"unit": str(unit_), "beta_rad": float(beta[k_]), "beta_in_unit": float((beta[k_] * aunits.rad).to_value(unit_)), "lenDec": float(ref_l[k_]),
+                               "altDec_radians": float(ref_a[k_]), "altDec_quantity": float(qa[k_])})
+                break
+        except Exception as ex:  # noqa
+            ctx.notes.append(f"EAS.altDec rejects an angle given in {unit_}: {type(ex).__name__} (not required by the property)")
     # metamorphic on the real code: decreasing in u, increasing in beta (paired runs)
     mm = min(m, 4000)
     u2 = np.minimum(u[:mm] * (1 + rng.uniform(0, 1, mm)), 1.0)
